@@ -260,9 +260,12 @@ Qed.
    header types that have a field-level decode model (C08: TcpHeader, Ipv4Header,
    Ipv6FragmentHeader -- their `read` decodes every field a second time, by hand,
    independently of XHeaderSlice::to_header) the decoded STRUCTS and the unread
-   rest are equal, for every byte string; a slice Len error is the reader's
-   UnexpectedEof (eof_of_len).  For the other header types the struct equality is
-   checked per case by the harness (`eq` flag: PartialEq of the two results). *)
+   rest are equal, for every byte string (Ipv4Header / Ipv6Header: every byte string
+   that holds the 20 / 40 fixed bytes -- shorter inputs are the class cut_fixed of the
+   outcome-level theorem, C06_read_cut_fixed_inside); a slice Len error is the reader's
+   UnexpectedEof (eof_of_len).  The other header types: "the remaining header types"
+   below (all 17 have a value-level theorem now; the harness `eq` flag checks the same
+   per case). *)
 Theorem C06_read_value_tcp : forall bs, bytes_ok bs ->
   Roundtrip.Tcp.read bs = eof_of_len (Roundtrip.Tcp.from_slice bs).
 Proof. exact tcp_read_eq_from_slice. Qed.
@@ -588,7 +591,9 @@ From EP Require Roundtrip.Eth Roundtrip.Vlan Roundtrip.Sll Roundtrip.Macsec Roun
    decode models C08 has added since (Roundtrip/{Eth,Vlan,Sll,Macsec,Arp,Auth,RawExt,Udp,Icmp4,
    Icmp6,Exts4}.v: `X_read` = T::read over a byte list, `X_from_slice` = T::from_slice; proofs:
    Equiv/ReadValuesLink.v, Equiv/ReadValuesNet.v): the decoded STRUCT (every field), the unread
-   rest and the error kind of `read` are those of `from_slice`, for every byte string; a slice
+   rest and the error of `read` (kind and, for content errors, the code with the offending value)
+   are those of `from_slice`, for every byte string (Ipv6Extensions and IpHeaders further below:
+   whenever from_slice accepts; their rejections are compared at outcome level); a slice
    Len error is the reader's UnexpectedEof (eof_of_len).  bytes_ok where a length octet >= 256
    would send the reader model into a slice-index panic a real u8 cannot reach. *)
 Theorem C06_read_value_ethernet2 : forall bs,
@@ -794,3 +799,130 @@ Example C06_ex_read_value_ip_headers :
    end).
 Proof. vm_compute. repeat split; reflexivity. Qed.
 (* ---- end extend-c08c ---- *)
+
+(* ==== audit follow-up (round 1 audit, notes/audit1/C06.md) ================================== *)
+From EP Require Equiv.ReadNeverBad Equiv.HdrMismatch Equiv.ReadValues6Total Equiv.ReadValuesTotal Roundtrip.DecodersTotal.
+
+(* ---- group 3: no reader ever reaches an impossible outcome ------------------------------------ *)
+(* For EVERY list of numbers and all 17 header types -- inside the three exclusion classes of
+   C06_read_eq_slice too: T::read over a Cursor never ends in an outcome the model calls impossible
+   (OBad: an Io error other than the end of the data, a usize underflow of the LimitedReader, an
+   impossible index, exhausted fuel).  Until now this was only implied, through same_reason, outside
+   the classes. *)
+Theorem C06_read_never_bad : forall t bs b, read_outcome t bs <> OBad b.
+Proof. exact Equiv.ReadNeverBad.read_never_bad. Qed.
+Print Assumptions C06_read_never_bad.
+
+(* inside cut_fixed, the IpHeaders conjunct missing from C06_read_cut_fixed_inside: IpHeaders::read has
+   seen version nibble 4 and an IHL below 5 after ONE byte, from_slice wants 20 bytes first *)
+Theorem C06_read_cut_fixed_inside_ip_headers : forall bs, cut_fixed HIpHeaders bs = true ->
+  read_outcome HIpHeaders bs = OContent (KC CIhl) /\ slice_outcome HIpHeaders bs = OEof.
+Proof. exact Equiv.ReadNeverBad.read_cut_fixed_ip_headers. Qed.
+Print Assumptions C06_read_cut_fixed_inside_ip_headers.
+
+(* what C06_read_eq_slice compares when one side rejects, spelled out.  A Len error that is not about
+   the end of the data (OLen: the LimitedReader's, resp. a slice Len error whose len_source is not the
+   slice) on either side is the same RECORD on the other: len, len_source, layer and
+   layer_start_offset equal, required_len equal except for the raw extension header with fewer than 8
+   bytes left (C06_read_required_len_differs).  A content rejection is compared by KIND (kind_of:
+   the offending version nibble / IHL / data offset is dropped, the C16 read programs carry none; SLL
+   kinds keep their value); every slice Len error whose source is the slice itself (or ArpAddrLengths)
+   is the reader's UnexpectedEof -- the reader has no record to compare with. *)
+Theorem C06_read_len_error_full : forall t bs, bytes_ok bs -> cut_fixed t bs = false ->
+  (t = HIpHeaders -> announced_missing bs = false /\ F15 bs = false) ->
+  forall rq l src ly off,
+  (read_outcome t bs = OLen rq l src ly off ->
+   exists rq', slice_outcome t bs = OLen rq' l src ly off /\
+               (rq = rq' \/ (ly = L_IPV6EXT /\ l < 8 /\ l < rq /\ rq' = 8))) /\
+  (slice_outcome t bs = OLen rq l src ly off ->
+   exists rq', read_outcome t bs = OLen rq' l src ly off /\
+               (rq' = rq \/ (ly = L_IPV6EXT /\ l < 8 /\ l < rq' /\ rq = 8))).
+Proof. exact Equiv.ReadNeverBad.read_len_error_full. Qed.
+Print Assumptions C06_read_len_error_full.
+
+Theorem C06_read_rejection_iff : forall t bs, bytes_ok bs -> cut_fixed t bs = false ->
+  (t = HIpHeaders -> announced_missing bs = false /\ F15 bs = false) ->
+  (forall k, read_outcome t bs = OContent k <-> slice_outcome t bs = OContent k) /\
+  (read_outcome t bs = OEof <-> slice_outcome t bs = OEof).
+Proof. exact Equiv.ReadNeverBad.read_rejection_iff. Qed.
+Print Assumptions C06_read_rejection_iff.
+
+(* non-vacuity: an OLen on both sides (ex_v6 12 of C06_ex_read_all), an OBad-free answer inside each class *)
+Example C06_ex_never_bad :
+  read_outcome HIpHeaders (ex_v6 12) = OLen 8 4 LS_IPV6_PAYLOAD L_IPV6FRAG 48 /\
+  cut_fixed HIpHeaders [64] = true /\ read_outcome HIpHeaders [64] = OContent (KC CIhl) /\
+  F15 f15_witness = true /\ (exists e, read_outcome HIpHeaders f15_witness = e /\ forall b, e <> OBad b) /\
+  read_outcome HTcp (repeat 0 12 ++ [64] ++ repeat 0 7) = OContent (KC CDataOffset) /\
+  slice_outcome HTcp (repeat 0 12 ++ [64] ++ repeat 0 7) = OContent (KC CDataOffset).
+Proof.
+  split; [vm_compute; reflexivity|]. split; [reflexivity|]. split; [vm_compute; reflexivity|].
+  split; [vm_compute; reflexivity|].
+  split; [eexists; split; [reflexivity|]; intros b; apply Equiv.ReadNeverBad.read_never_bad|].
+  split; vm_compute; reflexivity.
+Qed.
+
+(* ---- group 1, struct family: nibble and ether type disagree ----------------------------------- *)
+(* C06_ethertype_mismatch is about SlicedPacket; the same four answers for PacketHeaders::from_ether_type
+   (data shorter than the fixed header, or another version nibble).  With C06_headers_ethertype_eq_ip
+   (matching nibble) every input of from_ether_type(IPv4 | IPv6) is covered.  The two lax families never
+   reject here (C06_lax_ethertype_eq_ip / C06_laxheaders_ethertype_eq_ip: the error becomes the stop error). *)
+Theorem C06_headers_ethertype_mismatch : forall bs,
+  (len bs < 20 ->
+   PacketHeaders.from_ether_type ET_IPV4 bs =
+   Err (ELen (mkLenError 20 (len bs) LsSlice LyIpv4Header 0))) /\
+  (len bs < 40 ->
+   PacketHeaders.from_ether_type ET_IPV6 bs =
+   Err (ELen (mkLenError 40 (len bs) LsSlice LyIpv6Header 0))) /\
+  (forall b rest, bs = b :: rest -> 20 <= len bs -> N.shiftr b 4 <> 4 ->
+   PacketHeaders.from_ether_type ET_IPV4 bs = Err (EContent (CeIpv4Version (N.shiftr b 4)))) /\
+  (forall b rest, bs = b :: rest -> 40 <= len bs -> N.shiftr b 4 <> 6 ->
+   PacketHeaders.from_ether_type ET_IPV6 bs = Err (EContent (CeIpv6Version (N.shiftr b 4)))).
+Proof. exact Equiv.HdrMismatch.headers_ethertype_mismatch. Qed.
+Print Assumptions C06_headers_ethertype_mismatch.
+
+Example C06_ex_headers_mismatch :
+  PacketHeaders.from_ether_type ET_IPV6 ex_ip = Err (ELen (mkLenError 40 32 LsSlice LyIpv6Header 0)) /\
+  PacketHeaders.from_ether_type ET_IPV4 (ex_v6 24) = Err (EContent (CeIpv4Version 6)).
+Proof. split; vm_compute; reflexivity. Qed.
+
+(* ---- group 3, header values: the value theorems do not hold "for the wrong reason" ------------- *)
+(* C06_read_value_* are equations between two field-level decoder models.  Those models have failure
+   values of their own (Roundtrip.Common.EOOB / EPanic: unchecked read out of bounds, slice-index panic;
+   BitFields.Model OOB / UBRange / Panic / Other) which the C08 / C15 theorems exclude for ACCEPTED inputs
+   only.  For every byte string -- rejected ones included -- every from_slice / read model the value
+   theorems mention returns a value or a proper error (Len / Content / Io): `proper`, Roundtrip/DecodersTotal.v
+   (= C08_decoders_total_any / _bytes, stated there for all C08 types). *)
+Theorem C06_read_value_models_total : forall bs, bytes_ok bs ->
+  Roundtrip.DecodersTotal.proper (Roundtrip.Eth.eth_from_slice bs) /\ Roundtrip.DecodersTotal.proper (Roundtrip.Eth.eth_read bs) /\
+  Roundtrip.DecodersTotal.proper (Roundtrip.Vlan.vl_from_slice bs) /\ Roundtrip.DecodersTotal.proper (Roundtrip.Vlan.vl_read bs) /\
+  Roundtrip.DecodersTotal.proper (Roundtrip.Sll.sll_from_slice bs) /\ Roundtrip.DecodersTotal.proper (Roundtrip.Sll.sll_read bs) /\
+  Roundtrip.DecodersTotal.proper (Roundtrip.Macsec.mac_from_slice bs) /\ Roundtrip.DecodersTotal.proper (Roundtrip.Macsec.mac_read bs) /\
+  Roundtrip.DecodersTotal.proper (Roundtrip.Arp.arp_from_slice bs) /\ Roundtrip.DecodersTotal.proper (Roundtrip.Arp.arp_read bs) /\
+  Roundtrip.DecodersTotal.proper (Roundtrip.Ipv4.ip4_from_slice bs) /\ Roundtrip.DecodersTotal.proper (Roundtrip.Ipv4.ip4_read bs) /\
+  Roundtrip.DecodersTotal.proper (Roundtrip.Auth.ah_from_slice bs) /\ Roundtrip.DecodersTotal.proper (Roundtrip.Auth.ah_read bs) /\
+  Roundtrip.DecodersTotal.proper (Roundtrip.RawExt.rx_from_slice bs) /\ Roundtrip.DecodersTotal.proper (Roundtrip.RawExt.rx_read bs) /\
+  Roundtrip.DecodersTotal.proper (Roundtrip.Frag.frag_from_slice bs) /\ Roundtrip.DecodersTotal.proper (Roundtrip.Frag.frag_read bs) /\
+  Roundtrip.DecodersTotal.proper (Roundtrip.Tcp.from_slice bs) /\ Roundtrip.DecodersTotal.proper (Roundtrip.Tcp.read bs) /\
+  Roundtrip.DecodersTotal.proper (Roundtrip.Udp.udp_from_slice bs) /\ Roundtrip.DecodersTotal.proper (Roundtrip.Udp.udp_read bs) /\
+  Roundtrip.DecodersTotal.proper (Roundtrip.Icmp4.icmp4_from_slice bs) /\ Roundtrip.DecodersTotal.proper (Roundtrip.Icmp4.icmp4_read bs) /\
+  Roundtrip.DecodersTotal.proper (Roundtrip.Icmp6.icmp6_from_slice bs) /\ Roundtrip.DecodersTotal.proper (Roundtrip.Icmp6.icmp6_read bs) /\
+  (forall start, Roundtrip.DecodersTotal.proper (Roundtrip.Exts4.x4_from_slice start bs) /\
+                 Roundtrip.DecodersTotal.proper (Roundtrip.Exts4.x4_read bs start)) /\
+  Roundtrip.DecodersTotal.proper (Roundtrip.IpHeaders.iph_from_slice bs) /\ Roundtrip.DecodersTotal.proper (Roundtrip.IpHeaders.iph_read bs) /\
+  Equiv.ReadValues6Total.proper6 (BitFields.Model.Ipv6Header_from_slice bs) /\
+  Equiv.ReadValues6Total.proper6 (BitFields.Model.Ipv6Header_read bs) /\
+  (forall first, Roundtrip.DecodersTotal.x6_proper (ExtChain.Model.from_slice first bs)) /\
+  (forall first, Roundtrip.DecodersTotal.qreg
+     (fst (ExtChain.ReadModel.read6 false first (IoFault.Model.mk_rstate (ExtChain.ReadModel.cursor bs) None)))).
+Proof. exact Equiv.ReadValuesTotal.read_value_models_total. Qed.
+Print Assumptions C06_read_value_models_total.
+
+(* both kinds of answers occur: proper errors on rejected inputs, and the model failure that bytes_ok
+   excludes (a length "octet" of 300) *)
+Example C06_ex_models_total :
+  Roundtrip.Auth.ah_read ([17; 300] ++ repeat 0 10) = Roundtrip.Common.Err Roundtrip.Common.EPanic /\
+  Roundtrip.Auth.ah_from_slice [17; 2; 0; 0; 0; 0; 0; 1; 0; 0; 0; 2; 1; 2; 3] = Roundtrip.Common.Err Roundtrip.Common.ELen /\
+  Roundtrip.Auth.ah_read [17; 2; 0; 0; 0; 0; 0; 1; 0; 0; 0; 2; 1; 2; 3] = Roundtrip.Common.Err Roundtrip.Common.EIo /\
+  Roundtrip.IpHeaders.iph_read [64] = Roundtrip.Common.Err (Roundtrip.Common.EContent 0).
+Proof. repeat split; vm_compute; reflexivity. Qed.
+(* ==== end audit follow-up ==== *)
